@@ -58,8 +58,7 @@ def doInterp (l : Line) : Option String := do
           if x.all (·.length = (x.headD []).length) then some (nearestArray axes v x) else none
       | "mesh" => some (nearestMesh axes v x)
       | _ => none
-    if conv == "mesh" && !meshInputOk (x.map (·.length)) then some "err:mesh-input"
-    else if r.any (· = "err:index") then some "err:index"
+    if r.any (· = "err:index") then some "err:index"
     else some s!"ok r={showList id r}"
   | "peraxis" =>
     let vals := (← l.crats? "v").toArray
@@ -76,8 +75,7 @@ def doInterp (l : Line) : Option String := do
           if x.all (·.length = (x.headD []).length) then some (perAxisArray axes v x) else none
       | "mesh" => some (perAxisMesh axes v x)
       | _ => none
-    if conv == "mesh" && !meshInputOk (x.map (·.length)) then some "err:mesh-input"
-    else some s!"ok r={showCList r}"
+    some s!"ok r={showCList r}"
   | _ => none
 
 def parseVKind : String → Option VKind
@@ -91,13 +89,13 @@ def parseVKind : String → Option VKind
   | "object" => some .object
   | _ => none
 
-/-- `cast vk=<class>` answers `ok safe=0|1 outcome=ok|err:type`. -/
+/-- `cast vk=<class>` answers `ok safe=0|1 cast=0|1 outcome=ok|err:type`. -/
 def doCast (l : Line) : Option String := do
   let vk ← (← l.get? "vk") |> parseVKind
   let o := match findIndicesOutcome vk with
     | .ok => "ok"
     | .typeError => "err:type"
-  some s!"ok safe={if castSafe vk then 1 else 0} outcome={o}"
+  some s!"ok safe={if castSafe vk then 1 else 0} cast={if pointsTakeValueDtype vk then 1 else 0} outcome={o}"
 
 /-- `dispatch hasout=0|1 optional=0|1 out=0|1` answers `ok kind=… user_out=0|1`. -/
 def doDispatch (l : Line) : Option String := do
